@@ -41,9 +41,16 @@ FLOATS = {0.0: "(c0 F)", 1.0: "(c1 F)", 1e-8: "c_1e_8"}
 # objects: class -> (coq record type tag, {attribute: (type, projection)})
 OBJ = {
     "md": {"_ps": ("list:F", "md_ps F"), "_shape": ("list:Z", "md_shape F"), "_eps_zero": ("F", "md_eps_zero F"), "_is_zero_dist": ("bool", "md_is_zero_dist F")},
-    "ens": {"_states": ("list:St", "ens_states"), "_prob_dist": ("md", "ens_prob_dist")},
+    "ens": {"_states": ("list:St", "ens_states"), "_prob_dist": ("md", "ens_prob_dist"), "_eps_zero": ("F", "ens_eps_zero")},
+    "mp": {"_shape": ("list:Z", "mp_shape F"), "_eps_zero": ("F", "mp_eps_zero F"), "_mode_sampling": ("bool", "mp_mode_sampling F")},
 }
-CLASS_TAG = {"MultinomialDistribution": "md", "StateEnsemble": "ens"}
+CLASS_TAG = {"MultinomialDistribution": "md", "StateEnsemble": "ens", "MProcess": "mp"}
+MK = {"md": "mk_md F", "ens": "mk_ens"}
+# classes whose read-only properties are used although none of their methods is translated: (file, class)
+EXTRA_CLASSES = [("quara/objects/mprocess.py", "MProcess")]
+# oracles: functions / methods that are NOT translated; they are parameters of the generated section
+#   _compose_qoperations_MProcess_State_for_States(elem1, state, weight) -> (states, ps)      meas : St -> F -> pyres (list St * list F)
+#   <state>.generate_zero_obj()                                                              zero_obj : St -> St
 
 FUNCS = [
     dict(key="validate_prob_dist", file="quara/math/probability.py", cls=None, name="validate_prob_dist", coq="gen_validate_prob_dist",
@@ -54,8 +61,16 @@ FUNCS = [
          params=[("idx", "idx")], ret="F", self="md"),
     dict(key="md.marginalize", file="quara/objects/multinomial_distribution.py", cls="MultinomialDistribution", name="marginalize", coq="gen_md_marginalize",
          params=[("outcome_indices_remain", "list:Z")], ret="md", self="md"),
+    dict(key="md.conditionalize", file="quara/objects/multinomial_distribution.py", cls="MultinomialDistribution", name="conditionalize", coq="gen_md_conditionalize",
+         params=[("conditional_variable_indices", "list:Z"), ("conditional_variable_values", "list:Z")], ret="md", self="md",
+         locals={"ix_args": "list:list:bool"}),
     dict(key="ens.state", file="quara/objects/state_ensemble.py", cls="StateEnsemble", name="state", coq="gen_ens_state",
          params=[("outcome", "idx")], ret="St", self="ens"),
+    dict(key="StateEnsemble", file="quara/objects/state_ensemble.py", cls="StateEnsemble", name="__init__", coq="gen_ens_init",
+         params=[("states", "list:St"), ("prob_dist", "md"), ("eps_zero", "F")], ret="ens", ctor="ens"),
+    dict(key="_compose_qoperations_MProcess_StateEnsemble", file="quara/objects/operators.py", cls=None, name="_compose_qoperations_MProcess_StateEnsemble",
+         coq="gen_compose_mprocess_ensemble", params=[("elem1", "mp"), ("elem2", "ens")], ret="ens",
+         locals={"states": "list:St", "ps": "list:F"}, opaque_if="elem1.mode_sampling"),
 ]
 
 
@@ -72,10 +87,14 @@ def coq_type(t):
         return "(md F)"
     if t == "ens":
         return "(ensemble F St)"
+    if t == "mp":
+        return "(mproc F)"
     if t == "nd":
         return "(ndarray F)"
     if t == "idx":
         return "index_arg"
+    if t == "ix":
+        return "(list (list bool))"
     if t.startswith("list:"):
         return "(list %s)" % coq_type(t[5:])
     if t.startswith("opt:"):
@@ -168,6 +187,8 @@ class Fn:
             t, proj = OBJ[tag][a]
             return "(%s v_self)" % proj, t
         inner = self.attr_chain(e.value, env)
+        if inner is None and isinstance(e.value, ast.Name) and e.value.id in env and env[e.value.id][1] in OBJ:
+            inner = self.lookup(env, e.value.id, e)
         if inner is not None and inner[1] in OBJ:
             tag = inner[1]
             a = e.attr if e.attr.startswith("_") else "_" + e.attr
@@ -205,6 +226,11 @@ class Fn:
         ch = self.attr_chain(e, env)
         if ch is not None:
             return ch
+        if isinstance(e, ast.Attribute) and e.attr == "size":
+            a, ta = self.expr(e.value, env, binds)
+            if ta == "list:F":
+                return "(py_len %s)" % a, "Z"                    # ndarray.size of a 1-d array
+            fail(e, ".size of %s" % ta)
         if isinstance(e, ast.Attribute) and e.attr == "shape":
             a, ta = self.expr(e.value, env, binds)
             if ta == "nd":
@@ -244,17 +270,35 @@ class Fn:
             fail(e, "conditional expression %s" % ast.unparse(e))
         if isinstance(e, ast.Compare):
             return self.compare(e, env, binds)
+        if isinstance(e, ast.BinOp) and isinstance(e.op, ast.Mult) and isinstance(e.left, ast.List) and len(e.left.elts) == 1 \
+                and isinstance(e.left.elts[0], ast.Constant) and type(e.left.elts[0].value) is float and e.left.elts[0].value in FLOATS:
+            n_, tn = self.expr(e.right, env, binds)          # [c] * n  (n <= 0 gives the empty list)
+            if tn != "Z":
+                fail(e, "list repetition count of type %s" % tn)
+            return "(repeat %s (Z.to_nat %s))" % (FLOATS[e.left.elts[0].value], n_), "list:F"
+        if isinstance(e, ast.BinOp) and isinstance(e.op, ast.Mult) and isinstance(e.left, ast.List) and len(e.left.elts) == 1 \
+                and isinstance(e.left.elts[0], ast.Constant) and type(e.left.elts[0].value) is bool:
+            n_, tn = self.expr(e.right, env, binds)          # [True] * n / [False] * n
+            if tn != "Z":
+                fail(e, "list repetition count of type %s" % tn)
+            return "(repeat %s (Z.to_nat %s))" % ("true" if e.left.elts[0].value else "false", n_), "list:bool"
         if isinstance(e, ast.BinOp):
             a, ta = self.expr(e.left, env, binds)
             b, tb = self.expr(e.right, env, binds, hint="F" if ta in ("F", "list:F") else None)
             if isinstance(e.op, ast.Div) and ta == "list:F" and tb == "F":
                 return "(np_div F %s %s)" % (a, b), "list:F"
+            if isinstance(e.op, ast.Add) and ta == "list:Z" and tb == "list:Z":
+                return "(%s ++ %s)" % (a, b), "list:Z"          # tuple + tuple
             if ta == "Z" and tb == "Z" and type(e.op) in (ast.Add, ast.Sub, ast.Mult):
                 return "(%s %s %s)" % (a, {ast.Add: "+", ast.Sub: "-", ast.Mult: "*"}[type(e.op)], b), "Z"
             fail(e, "binary operator on %s, %s" % (ta, tb))
         if isinstance(e, ast.Subscript):
             a, ta = self.expr(e.value, env, binds)
             i, ti = self.expr(e.slice, env, binds)
+            if ta == "nd" and ti == "ix":
+                return "(nd_ix_select F %s %s)" % (a, i), "nd"
+            if ta == "list:Z" and ti == "list:bool":
+                return "(np_mask_select %s %s)" % (a, i), "list:Z"
             if ta.startswith("list:") and ti == "Z":
                 t = self.tmp()
                 binds.append((t, "(py_getitem %s %s)" % (a, i)))
@@ -323,10 +367,38 @@ class Fn:
             if ta != "Z":
                 fail(e, "range of %s" % ta)
             return "(py_set_range %s)" % a, "list:Z"
+        if fn == "np.ix_" and len(e.args) == 1 and isinstance(e.args[0], ast.Starred) and not kws:
+            a, ta = self.expr(e.args[0].value, env, binds)
+            if ta != "list:list:bool":
+                fail(e, "np.ix_ of %s" % ta)
+            return a, "ix"
+        if fn == "np.array" and len(e.args) == 1 and not kws:
+            a, ta = self.expr(e.args[0], env, binds)
+            if ta != "list:Z":
+                fail(e, "np.array of %s" % ta)
+            return a, "list:Z"
+        if fn == "max" and len(e.args) == 2 and not kws:
+            a, ta = self.expr(e.args[0], env, binds, hint="F")
+            b, tb = self.expr(e.args[1], env, binds, hint="F")
+            if (ta, tb) != ("F", "F"):
+                fail(e, "max of %s, %s" % (ta, tb))
+            return "(if f_lt F %s %s then %s else %s)" % (a, b, b, a), "F"      # max(a, b) is b only when b > a
+        if fn == "np.array" and len(e.args) == 1 and set(kws) == {"dtype"} and ast.unparse(kws["dtype"]) == "np.float64":
+            a, ta = self.expr(e.args[0], env, binds)
+            if ta != "list:F":
+                fail(e, "np.array of %s" % ta)
+            return a, "list:F"
+        if isinstance(e.func, ast.Attribute) and e.func.attr == "generate_zero_obj" and not e.args and not kws:
+            a, ta = self.expr(e.func.value, env, binds)
+            if ta != "St":
+                fail(e, "generate_zero_obj of %s" % ta)
+            return "(zero_obj %s)" % a, "St"
         if fn == "np.sum" and len(e.args) == 1:
             a, ta = self.expr(e.args[0], env, binds)
             if ta == "list:F" and not kws:
                 return "(np_sum F %s)" % a, "F"
+            if ta == "nd" and not kws:
+                return "(np_sum_all F %s)" % a, "F"
             if ta == "nd" and set(kws) == {"axis"}:
                 x, tx = self.expr(kws["axis"], env, binds)
                 if tx != "list:Z":
@@ -403,6 +475,8 @@ class Fn:
             node = actual.get(p, defaults.get(p))
             if node is None:
                 fail(e, "missing argument %s" % p)
+            if p not in actual and not (isinstance(node, ast.Constant) and (node.value is None or isinstance(node.value, (bool, str)))):
+                fail(e, "default of %s is not a constant" % p)
             if t == "str":
                 self.check_msg(node, env)
                 continue
@@ -504,8 +578,9 @@ class Fn:
     def bind_var(self, env, key, typ, node):
         env = dict(env)
         old = env.get(key)
-        if old is not None and old[1] != typ:
-            fail(node, "variable %s changes type %s -> %s" % (key, old[1], typ))
+        if old is not None and old[1] != typ and key.startswith("self."):
+            fail(node, "attribute %s changes type %s -> %s" % (key, old[1], typ))
+        # (a local name may be rebound with another type in straight-line code; loops and joins compare the types themselves)
         env[key] = (self.coqname(key), typ)
         self.stale.discard(key)
         return env
@@ -541,6 +616,54 @@ class Fn:
                 fail(s, "raise must be `raise Name(<message>)`")
             self.check_msg(s.exc.args[0], env)
             return 'PRaise "%s"%%string' % s.exc.func.id
+        if isinstance(s, ast.AnnAssign):
+            if s.value is None or not s.simple and not isinstance(s.target, ast.Attribute):
+                fail(s, "annotated assignment")
+            fake = ast.Assign(targets=[s.target], value=s.value)
+            ast.copy_location(fake, s); ast.fix_missing_locations(fake)
+            return self.block([fake] + rest, env, k, inner)
+        # x = []      (element type from the spec's `locals` table; a wrong entry makes the generated text ill-typed)
+        if isinstance(s, ast.Assign) and len(s.targets) == 1 and isinstance(s.targets[0], ast.Name) and isinstance(s.value, ast.List) and not s.value.elts:
+            name = s.targets[0].id
+            t = self.spec.get("locals", {}).get(name)
+            if t is None or name in self.params_str:
+                fail(s, "empty list literal bound to %s without a declared type" % name)
+            env2 = self.bind_var(env, name, t, s)
+            self.alias.pop(name, None)
+            return "let %s := [] in\n  %s" % (env2[name][0], cont(env2))
+        # x = [E for _ in range(N)]   with E effect-free up to raising: evaluated N times with the same result
+        if isinstance(s, ast.Assign) and len(s.targets) == 1 and isinstance(s.targets[0], ast.Name) and isinstance(s.value, ast.ListComp):
+            lc = s.value
+            g = lc.generators[0] if len(lc.generators) == 1 else None
+            if g is None or g.ifs or g.is_async or not (isinstance(g.target, ast.Name) and g.target.id == "_") \
+                    or not (isinstance(g.iter, ast.Call) and ast.unparse(g.iter.func) == "range" and len(g.iter.args) == 1 and not g.iter.keywords):
+                fail(s, "list comprehension")
+            binds0 = []
+            n_, tn = self.expr(g.iter.args[0], env, binds0)
+            if tn != "Z" or binds0:
+                fail(s, "comprehension count")
+            binds = []
+            v, tv = self.expr(lc.elt, env, binds)
+            name = s.targets[0].id
+            env2 = self.bind_var(env, name, "list:" + tv, s)
+            inner_txt = self.wrap(binds, "PRet (repeat %s (Z.to_nat %s))" % (v, n_))
+            return "pbind (if %s <=? 0 then PRet [] else %s) (fun %s =>\n  %s)" % (n_, inner_txt, env2[name][0], cont(env2))
+        # a, b = <oracle>(elem1, state, weight)
+        if isinstance(s, ast.Assign) and len(s.targets) == 1 and isinstance(s.targets[0], ast.Tuple) and isinstance(s.value, ast.Call) \
+                and ast.unparse(s.value.func) == "_compose_qoperations_MProcess_State_for_States":
+            tg = s.targets[0]
+            c = s.value
+            if len(tg.elts) != 2 or not all(isinstance(x, ast.Name) for x in tg.elts) or c.keywords or len(c.args) != 3 \
+                    or not (isinstance(c.args[0], ast.Name) and c.args[0].id == self.spec["params"][0][0] and self.spec["params"][0][1] == "mp"):
+                fail(s, "oracle call")
+            binds = []
+            a, ta = self.expr(c.args[1], env, binds)
+            b, tb = self.expr(c.args[2], env, binds)
+            if (ta, tb) != ("St", "F"):
+                fail(s, "oracle arguments %s, %s" % (ta, tb))
+            env2 = self.bind_var(env, tg.elts[0].id, "list:St", s)
+            env2 = self.bind_var(env2, tg.elts[1].id, "list:F", s)
+            return self.wrap(binds, "pbind (meas %s %s) (fun '(%s, %s) =>\n  %s)" % (a, b, env2[tg.elts[0].id][0], env2[tg.elts[1].id][0], cont(env2)))
         if isinstance(s, ast.Assign) and len(s.targets) == 1 and isinstance(s.targets[0], ast.Name) and self.is_msg(s.value) \
                 and (s.targets[0].id not in env):
             self.check_msg(s.value, env)          # a message variable: no effect on values
@@ -566,6 +689,11 @@ class Fn:
                     fail(s, "subscript assignment %s[%s] = %s" % (ta, ti, tv))
                 for other in self.alias.get(key, set()) - {key}:
                     self.stale.add(other)
+                srcv = self.target_key(s.value) if isinstance(s.value, (ast.Name, ast.Attribute)) else None
+                if tv.startswith("list:") and srcv is not None:
+                    grp = self.alias.get(srcv, {srcv}) | self.alias.get(key, {key})
+                    for n_ in grp:
+                        self.alias[n_] = grp
                 env2 = self.bind_var(env, key, ta, s)
                 return self.wrap(binds, "pbind (py_setitem %s %s %s) (fun %s =>\n  %s)" % (a, i, v, env2[key][0], cont(env2)))
             key = self.target_key(tg)
@@ -609,6 +737,35 @@ class Fn:
                 if c.keywords:
                     fail(s, "print with keywords")
                 return cont(env)
+            if isinstance(c.func, ast.Attribute) and c.func.attr == "append" and len(c.args) == 1 and not c.keywords:
+                key = self.target_key(c.func.value)
+                if key is None or key not in env or not env[key][1].startswith("list:") or key.startswith("self."):
+                    fail(s, ".append target")
+                binds = []
+                v, tv = self.expr(c.args[0], env, binds)
+                if "list:" + tv != env[key][1]:
+                    fail(s, "append of %s to %s" % (tv, env[key][1]))
+                for other in self.alias.get(key, set()) - {key}:
+                    self.stale.add(other)
+                src = self.target_key(c.args[0]) if isinstance(c.args[0], (ast.Name, ast.Attribute)) else None
+                if tv.startswith("list:") and src is not None:        # the container now shares the stored list
+                    grp = self.alias.get(src, {src}) | self.alias.get(key, {key})
+                    for n_ in grp:
+                        self.alias[n_] = grp
+                env2 = self.bind_var(env, key, env[key][1], s)
+                return self.wrap(binds, "let %s := (%s ++ [%s]) in\n  %s" % (env2[key][0], env[key][0], v, cont(env2)))
+            if isinstance(c.func, ast.Attribute) and c.func.attr == "extend" and len(c.args) == 1 and not c.keywords:
+                key = self.target_key(c.func.value)
+                if key is None or key not in env or not env[key][1].startswith("list:") or key.startswith("self."):
+                    fail(s, ".extend target")
+                binds = []
+                v, tv = self.expr(c.args[0], env, binds)
+                if tv != env[key][1]:
+                    fail(s, "extend of %s by %s" % (env[key][1], tv))
+                for other in self.alias.get(key, set()) - {key}:
+                    self.stale.add(other)
+                env2 = self.bind_var(env, key, tv, s)
+                return self.wrap(binds, "let %s := (%s ++ %s) in\n  %s" % (env2[key][0], env[key][0], v, cont(env2)))
             if isinstance(c.func, ast.Attribute) and c.func.attr == "remove" and len(c.args) == 1 and not c.keywords:
                 key = self.target_key(c.func.value)
                 if key is None or key not in env or env[key][1] != "list:Z" or key not in self.sets:
@@ -648,6 +805,25 @@ class Fn:
             if not s.orelse and len(s.body) == 1 and ast.unparse(s.body[0]) == "%s = np.array(%s)" % (x, x) and x in env and env[x][1] == "list:F":
                 return cont(env)
             fail(s, "type(x) == list test")
+        # (1b) if type(x) != ClassName: ... raise      where x has the model type of that class: the test is False
+        if isinstance(s.test, ast.Compare) and len(s.test.ops) == 1 and isinstance(s.test.ops[0], ast.NotEq) and isinstance(s.test.left, ast.Call) \
+                and isinstance(s.test.left.func, ast.Name) and s.test.left.func.id == "type" and len(s.test.left.args) == 1 and not s.test.left.keywords \
+                and isinstance(s.test.left.args[0], ast.Name) and isinstance(s.test.comparators[0], ast.Name) \
+                and s.test.comparators[0].id in CLASS_TAG and s.test.left.args[0].id in env \
+                and env[s.test.left.args[0].id][1] == CLASS_TAG[s.test.comparators[0].id] and not s.orelse and self.terminates(list(s.body)) \
+                and all(isinstance(b, (ast.Assign, ast.AugAssign, ast.Raise)) for b in s.body):
+            saved = set(self.strs)
+            self.block(list(s.body), env, lambda e_: fail(s, "fallthrough"), inner)      # still must be inside the subset
+            self.strs = saved
+            return cont(env)
+        # (1c) the branch the spec declares not modelled (sampling): it must end in `return`, control never comes back
+        if self.spec.get("opaque_if") and ast.unparse(s.test) == self.spec["opaque_if"]:
+            if not self.terminates(list(s.body)) or not s.orelse or inner:
+                fail(s, "not-modelled branch must return and have an else branch")
+            c, tc = self.expr(s.test, env, [])
+            if tc != "bool":
+                fail(s, "not-modelled test")
+            return "(if %s then PRaise not_modelled else\n  %s)" % (c, self.block(list(s.orelse), env, cont, inner))
         # (2) dispatch on a dynamically typed index
         if tt and tt[0] in env and env[tt[0]][1] == "idx":
             return self.dispatch(s, rest, env, k, inner)
@@ -812,6 +988,20 @@ class Fn:
             itxt = "(py_enumerate %s)" % a
             pat = "'(%s, %s)" % (self.coqname(counter), self.coqname(elt))
             loc = {counter: (self.coqname(counter), "Z"), elt: (self.coqname(elt), ta[5:])}
+        elif isinstance(it, ast.Call) and isinstance(it.func, ast.Name) and it.func.id == "zip" and len(it.args) == 2 and not it.keywords:
+            # zip(<list>, <MultinomialDistribution>): the distribution is iterated through __getitem__(0), (1), ... until IndexError,
+            # i.e. over its ps (class has no __iter__: checked in main; gen_md_iteration_protocol in coq/gen/C16_MdEquiv.v)
+            a, ta = self.expr(it.args[0], env, binds)
+            b, tb = self.expr(it.args[1], env, binds)
+            if not ta.startswith("list:") or not (tb == "md" or tb.startswith("list:")):
+                fail(s, "zip of %s, %s" % (ta, tb))
+            if not (isinstance(s.target, ast.Tuple) and len(s.target.elts) == 2 and all(isinstance(x, ast.Name) for x in s.target.elts)):
+                fail(s, "loop target of zip")
+            x1, x2 = s.target.elts[0].id, s.target.elts[1].id
+            src_node = it.args[0]
+            itxt = "(combine %s (md_ps F %s))" % (a, b) if tb == "md" else "(combine %s %s)" % (a, b)
+            pat = "'(%s, %s)" % (self.coqname(x1), self.coqname(x2))
+            loc = {x1: (self.coqname(x1), ta[5:]), x2: (self.coqname(x2), "F" if tb == "md" else tb[5:])}
         else:
             src_node = it
             a, ta = self.expr(it, env, binds)
@@ -875,12 +1065,10 @@ class Fn:
         want = (["self"] if spec["cls"] else []) + [p for p, _ in spec["params"]]
         if names != want:
             raise Unsupported("%s: parameters %s, expected %s" % (f.name, names, want))
-        for d in a.defaults:
-            if not (isinstance(d, ast.Constant) and (d.value is None or isinstance(d.value, (bool, str)))):
-                raise Unsupported("%s: default %s" % (f.name, ast.unparse(d)))
+        # (defaults are only read at call sites of translated callers: call_translated rejects a non-constant default it needs)
         for n in ast.walk(f):
             if isinstance(n, (ast.Global, ast.Nonlocal, ast.Lambda, ast.NamedExpr, ast.Try, ast.While, ast.With, ast.Delete, ast.Yield, ast.YieldFrom, ast.Await,
-                              ast.ListComp, ast.SetComp, ast.DictComp, ast.GeneratorExp, ast.Import, ast.ImportFrom, ast.FunctionDef, ast.ClassDef)) and n is not f:
+                              ast.SetComp, ast.DictComp, ast.GeneratorExp, ast.Import, ast.ImportFrom, ast.FunctionDef, ast.ClassDef)) and n is not f:
                 fail(n, "construct outside the subset")
             if isinstance(n, ast.Name) and isinstance(n.ctx, (ast.Store, ast.Del)) and n.id in RESERVED:
                 fail(n, "assignment to the reserved name %s" % n.id)
@@ -913,7 +1101,7 @@ class Fn:
                     if "self." + attr not in e_:
                         raise Unsupported("%s: attribute %s is not assigned on every path" % (f.name, attr))
                     fields.append(e_["self." + attr][0])
-                return "PRet (mk_md F %s)" % " ".join(fields)
+                return "PRet (%s %s)" % (MK[self.ctor], " ".join(fields))
             if self.ret == "unit":
                 return "PRet tt"
             raise Unsupported("%s falls off its end" % f.name)
@@ -933,6 +1121,8 @@ Import ListNotations.
 Local Open Scope Z_scope.
 Section Gen.
 Context (F : OF) (c_1e_8 : F) (St : Type).
+(* oracles (not translated): _compose_qoperations_MProcess_State_for_States(elem1, state, weight) and State.generate_zero_obj *)
+Context (meas : St -> F -> pyres (list St * list F)) (zero_obj : St -> St).
 """
 
 
@@ -975,6 +1165,8 @@ NEED = {
     "quara/objects/multinomial_distribution.py": {"np": "numpy", "reduce": "functools.reduce", "mul": "operator.mul",
                                                   "validate_prob_dist": "quara.math.probability.validate_prob_dist",
                                                   "index_serial_from_index_multi_dimensional": "quara.utils.index_util.index_serial_from_index_multi_dimensional"},
+    "quara/objects/operators.py": {"np": "numpy", "MProcess": "quara.objects.mprocess.MProcess", "StateEnsemble": "quara.objects.state_ensemble.StateEnsemble",
+                                   "MultinomialDistribution": "quara.objects.multinomial_distribution.MultinomialDistribution"},
     "quara/objects/state_ensemble.py": {"index_serial_from_index_multi_dimensional": "quara.utils.index_util.index_serial_from_index_multi_dimensional",
                                         "MultinomialDistribution": "quara.objects.multinomial_distribution.MultinomialDistribution"},
 }
@@ -989,6 +1181,18 @@ def main():
             if spec["file"] not in trees:
                 trees[spec["file"]] = ast.parse(open(os.path.join(repo, spec["file"])).read())
                 imports_ok(trees[spec["file"]], spec["file"], NEED[spec["file"]])
+        for path, cls in EXTRA_CLASSES:
+            t_ = ast.parse(open(os.path.join(repo, path)).read())
+            _f, cdef_ = find_def(t_, cls, "__init__")
+            getters[CLASS_TAG[cls]] = check_getters(cdef_, CLASS_TAG[cls])
+        # the oracle must be the module-level function of operators.py, and MultinomialDistribution must be iterable only through __getitem__
+        ops_tree = trees["quara/objects/operators.py"]
+        orc = [n for n in ops_tree.body if isinstance(n, ast.FunctionDef) and n.name == "_compose_qoperations_MProcess_State_for_States"]
+        if len(orc) != 1 or [x.arg for x in orc[0].args.args] != ["elem1", "elem2", "weight"]:
+            raise Unsupported("oracle _compose_qoperations_MProcess_State_for_States(elem1, elem2, weight) not found")
+        _f, md_c = find_def(trees["quara/objects/multinomial_distribution.py"], "MultinomialDistribution", "__getitem__")
+        if any(isinstance(n, ast.FunctionDef) and n.name in ("__iter__", "__next__", "__len__") for n in md_c.body) or md_c.bases:
+            raise Unsupported("MultinomialDistribution defines __iter__/__len__ or has base classes")
         parts = [HEADER]
         for spec in FUNCS:
             fdef, cdef = find_def(trees[spec["file"]], spec["cls"], spec["name"])
